@@ -669,8 +669,8 @@ theorem sp_stateFn_end_g {F : Text} (hF : Tr F []) : Sp (stateFn .grammarRule) F
 
 theorem run_docs_g (outer inner : Fn) (marker : TK) (m : Text)
     (hO : ∀ F X, Tr F (m ++ X) → Sp (stateFn outer) F (some inner) X [(marker, m)])
-    (hI : ∀ l more, IsDocLine l → Sp (stateFn inner) (l ++ 10 :: more) (some outer) (10 :: more)
-      [(.commentText, l)]) :
+    (hI : ∀ sp l more, DocSp sp l → IsDocLine l →
+      Sp (stateFn inner) (sp ++ (l ++ 10 :: more)) (some outer) (10 :: more) [(.commentText, l)]) :
     ∀ (docs : List Text), (∀ l ∈ docs, IsDocLine l) → ∀ (n : Nat) (F t tl : Text) (K : List KV),
     DocsText m docs t tl → Tr F t → (∀ F', Tr F' tl → RunOK n outer F' K) →
     RunOK (n + 2 * docs.length) outer F ((docs.map (docKV marker m)).flatten ++ K) := by
@@ -684,12 +684,12 @@ theorem run_docs_g (outer inner : Fn) (marker : TK) (m : Text)
   | cons l docs ih =>
     intro hd n F t tl K hdt hF hk
     have hl : IsDocLine l := hd l (by simp)
-    obtain ⟨ws, t', hws, rfl, hrest⟩ := hdt
+    obtain ⟨sp, ws, t', hsp, hws, rfl, hrest⟩ := hdt
     have ih' := ih (fun l' h' => hd l' (by simp [h'])) n (10 :: (ws ++ t')) t' tl K hrest
       ⟨10 :: ws, .lf hws, rfl⟩ hk
     have e : n + 2 * (l :: docs).length = (n + 2 * docs.length) + 1 + 1 := by simp; omega
     rw [e]
-    exact RunOK.step (hO F _ hF) (RunOK.step (hI l _ hl) ih' rfl) (by simp [docKV])
+    exact RunOK.step (hO F _ hF) (RunOK.step (hI sp l _ hsp hl) ih' rfl) (by simp [docKV])
 
 theorem run_rdocs_g : ∀ (docs : List Text), (∀ l ∈ docs, IsDocLine l) →
     ∀ (n : Nat) (F t tl : Text) (K : List KV),
@@ -697,7 +697,7 @@ theorem run_rdocs_g : ∀ (docs : List Text), (∀ l ∈ docs, IsDocLine l) →
     RunOK (n + 2 * docs.length) .grammarRule F
       ((docs.map (docKV .ruleDoc sRDOC)).flatten ++ K) :=
   run_docs_g .grammarRule .ruleDocInner .ruleDoc sRDOC
-    (fun _ _ hF => sp_stateFn_rdoc_g hF) (fun _ more h => sp_stateFn_rdocInner h more)
+    (fun _ _ hF => sp_stateFn_rdoc_g hF) (fun _ _ more hsp h => sp_stateFn_rdocInner hsp h more)
 
 theorem run_gdocs_g : ∀ (docs : List Text), (∀ l ∈ docs, IsDocLine l) →
     ∀ (n : Nat) (F t tl : Text) (K : List KV),
@@ -705,7 +705,7 @@ theorem run_gdocs_g : ∀ (docs : List Text), (∀ l ∈ docs, IsDocLine l) →
     RunOK (n + 2 * docs.length) .grammar F
       ((docs.map (docKV .grammarDoc sGDOC)).flatten ++ K) :=
   run_docs_g .grammar .grammarDocInner .grammarDoc sGDOC
-    (fun _ _ hF => sp_stateFn_gdoc_g hF) (fun _ more h => sp_stateFn_gdocInner h more)
+    (fun _ _ hF => sp_stateFn_gdoc_g hF) (fun _ _ more hsp h => sp_stateFn_gdocInner hsp h more)
 
 theorem run_rules_g : ∀ (rules : List SRule), (∀ r ∈ rules, r.WF) →
     ∀ (n : Nat) (F t tl : Text) (K : List KV), RulesText rules t tl → Tr F t →
@@ -743,7 +743,7 @@ theorem ruleStart_g : ∀ (rules : List SRule), (∀ r ∈ rules, r.WF) → ∀ 
   have docStart : ∀ (l : Text) (ls : List Text) {t tl : Text}, DocsText sRDOC (l :: ls) t tl →
       RuleStart t := by
     intro l ls t tl h
-    obtain ⟨ws, t', _, rfl, _⟩ := h
+    obtain ⟨sp, ws, t', _, _, rfl, _⟩ := h
     exact Or.inr (Or.inr ⟨_, by simp [sRDOC]; rfl⟩)
   cases rules with
   | nil =>
@@ -786,7 +786,7 @@ theorem docsText_length {m : Text} (hm : 1 ≤ m.length) : ∀ (docs : List Text
   | nil => intro t tl h; have : t = tl := h; subst this; simp
   | cons l ls ih =>
     intro t tl h
-    obtain ⟨ws, t', _, rfl, hrest⟩ := h
+    obtain ⟨sp, ws, t', _, _, rfl, hrest⟩ := h
     have := ih hrest
     simp; omega
 
@@ -848,7 +848,7 @@ theorem docsText_docsWith {sep : Nat → Text} (hs : ∀ i, IsTrivia (sep i)) (m
   | nil => intro i tl; exact rfl
   | cons l ls ih =>
     intro i tl
-    exact ⟨sep i, docsWith sep m (i + 1) ls ++ tl, hs i, by simp [docsWith], ih (i + 1) tl⟩
+    exact ⟨[32], sep i, docsWith sep m (i + 1) ls ++ tl, .inl rfl, hs i, by simp [docsWith], ih (i + 1) tl⟩
 
 theorem rulesText_rulesWith {sep : Nat → Text} (hs : ∀ i, IsTrivia (sep i)) :
     ∀ (rules : List SRule) (i : Nat) (tl : Text),
@@ -917,7 +917,7 @@ theorem docsText_canon (m : Text) : ∀ (docs : List Text) (tl : Text),
   | nil => intro tl; exact rfl
   | cons l ls ih =>
     intro tl
-    exact ⟨[], (ls.map (docLine m)).flatten ++ tl, .nil, by simp [docLine], ih tl⟩
+    exact ⟨[32], [], (ls.map (docLine m)).flatten ++ tl, .inl rfl, .nil, by simp [docLine], ih tl⟩
 
 theorem rulesText_canon : ∀ (rules : List SRule) (tl : Text),
     RulesText rules ((rules.map SRule.pretty).flatten ++ tl) tl := by
